@@ -17,12 +17,15 @@
 (* in an arbitrary order.  Serves C01, C12 (FedProx), C10.                 *)
 (* Toggles: WeightByExamples, FreshClientOpt, RoundParams (clients start   *)
 (* from the round's params), ZeroGuard, CarryServerOpt, ProxOnRound,       *)
-(* AdvanceKey (a fresh key at every local step).                           *)
+(* AdvanceKey (a fresh key at every local step).  Parameter of the        *)
+(* algorithm family, not a deviation: ApplyOnEmpty (TRUE for FedAvg: the   *)
+(* server optimizer also runs on a round without examples; FALSE for one   *)
+(* HypCluster cluster: such a round is skipped).                           *)
 (***************************************************************************)
 EXTENDS Rationals, FiniteSets, TLC
 
 CONSTANTS Instances,   \* the set of instances the model checker starts from (records, see below)
-          WeightByExamples, FreshClientOpt, RoundParams, ZeroGuard, CarryServerOpt, ProxOnRound, AdvanceKey
+          WeightByExamples, FreshClientOpt, RoundParams, ZeroGuard, CarryServerOpt, ProxOnRound, AdvanceKey, ApplyOnEmpty
 
 VARIABLES inst,                           \* the instance (never changes)
           round, params, sstate,          \* server: round number, params, optimizer state (momentum trace)
@@ -107,7 +110,11 @@ ServerUpdate == /\ cur = 0 /\ pending = {} /\ round <= inst.rounds
                         /\ params' = NaNVec /\ hist' = Append(hist, [p |-> NaNVec, diag |-> diag])
                         /\ round' = inst.rounds + 1 /\ pending' = {} /\ UNCHANGED sstate
                    ELSE /\ LET mean == IF nsum > 0 THEN VScale(acc, <<1, nsum>>) ELSE VZero
-                               o == OptApply(inst.sopt, mean, IF CarryServerOpt THEN sstate ELSE VZero, params)
+                               \* FedAvg applies the server optimizer also to the zero mean of a round without examples
+                               \* (a momentum trace keeps moving the parameters); ~ApplyOnEmpty: such a round is skipped
+                               \* altogether (what HypCluster does for a cluster that saw no example)
+                               o == IF nsum = 0 /\ ~ApplyOnEmpty THEN [p |-> params, s |-> sstate]
+                                    ELSE OptApply(inst.sopt, mean, IF CarryServerOpt THEN sstate ELSE VZero, params)
                            IN /\ params' = o.p /\ sstate' = o.s /\ hist' = Append(hist, [p |-> o.p, diag |-> diag])
                         /\ round' = round + 1
                         /\ pending' = (IF round + 1 <= inst.rounds THEN CohortPos(round + 1) ELSE {})
@@ -139,7 +146,7 @@ ExamplesAt(P, r) == IF P = {} THEN 0 ELSE LET i == CHOOSE x \in P : TRUE IN Len(
 Examples(r) == ExamplesAt(CohortPos(r), r)
 DefRound(r, w, s) == LET n == Examples(r)
                          mean == IF n > 0 THEN VScale(WeightedSum(CohortPos(r), r, w), <<1, n>>) ELSE VZero
-                     IN OptApply(inst.sopt, mean, s, w)
+                     IN IF n = 0 /\ ~ApplyOnEmpty THEN [p |-> w, s |-> s] ELSE OptApply(inst.sopt, mean, s, w)
 RECURSIVE DefAfter(_)
 DefAfter(r) == IF r = 0 THEN [p |-> inst.init, s |-> VZero] ELSE LET b == DefAfter(r - 1) IN DefRound(r, b.p, b.s)
 
